@@ -5,6 +5,7 @@
 package ctfe
 
 import (
+	"strings"
 	"context"
 
 	"github.com/google/trillian"
@@ -99,7 +100,9 @@ func Harness_C15_multi() {
 //verif:opt maxpaths=200 reach=checked
 func Harness_C15_instance() {
 	mirror, readonly, frozen := vChoice("mirror", 2) == 1, vChoice("readonly", 2) == 1, vChoice("frozen", 2) == 1
-	cfg := &configpb.LogConfig{LogId: 1, Prefix: "log", IsMirror: mirror, IsReadonly: readonly}
+	prefix := []string{"log", "log/", "/log/", "a/b//"}[vChoice("prefix-spelling", 4)]
+	base := strings.TrimRight(prefix, "/")
+	cfg := &configpb.LogConfig{LogId: 1, Prefix: prefix, IsMirror: mirror, IsReadonly: readonly}
 	v := &ValidatedLogConfig{Config: cfg}
 	fsth := &ct.SignedTreeHead{TreeSize: 9}
 	if frozen {
@@ -111,9 +114,17 @@ func Harness_C15_instance() {
 		return &trillian.GetLatestSignedLogRootResponse{SignedLogRoot: envRootOf(999999, make([]byte, 32), 5)}, nil
 	}
 	li := newLogInfo(InstanceOptions{Validated: v, Client: be, MetricFactory: envMetricFactory(), STHStorage: mst}, CertValidationOpts{}, nil, envTime{}, &directIssuanceChainService{})
-	h := li.Handlers("log")
-	_, hasAdd := h["/log"+ct.AddChainPath]
-	_, hasPre := h["/log"+ct.AddPreChainPath]
+	h := li.Handlers(prefix)
+	if !strings.HasPrefix(base, "/") {
+		base = "/" + base
+	}
+	_, hasAdd := h[base+ct.AddChainPath]
+	_, hasPre := h[base+ct.AddPreChainPath]
+	for path := range h {
+		if strings.HasSuffix(path, ct.AddChainPath) || strings.HasSuffix(path, ct.AddPreChainPath) {
+			vAssert(!mirror && !readonly, "no submission endpoint under any spelling of the prefix on a mirror or read-only log")
+		}
+	}
 	vAssert(hasAdd == hasPre && hasAdd == (!mirror && !readonly), "submission endpoints exposed iff neither mirror nor read-only")
 	vAssert(len(h) == 6 || len(h) == 8, "the six read endpoints are always exposed")
 	if frozen {
